@@ -31,17 +31,17 @@ func corpusMsgs() []*abs.Msg {
 	}
 	return []*abs.Msg{
 		hdr(), // header only
-		hdr(sa(b(248, 0x5a), abs.Transform{Type: 1, ID: 12, HasAttr: true, TV: true, AttrType: 14, AttrVal: 128})),  // D3
-		hdr(sa(b(255, 0x5b), abs.Transform{Type: 2, ID: 5})),                                                       // D3
-		hdr(sa(nil, abs.Transform{Type: 1, ID: 12, HasAttr: true, TV: true, AttrType: 300, AttrVal: 7})),           // D4
-		hdr(sa(nil, abs.Transform{Type: 1, ID: 12, HasAttr: true, TV: true, AttrType: 142, AttrVal: 256})),         // D4
-		hdr(sa(nil, abs.Transform{Type: 3, ID: 2, HasAttr: true, AttrType: 9, AttrBytes: abs.HB{1, 2, 3}})),        // D5
-		hdr(abs.Payload{Kind: abs.PNotify, Notify: &abs.Notify{Proto: 3, Type: 16393, SPI: b(252, 1), Data: b(3, 2)}}), // D6
-		hdr(abs.Payload{Kind: abs.PNotify, Notify: &abs.Notify{Proto: 3, Type: 1, SPI: b(255, 1)}}),                    // D6
-		hdr(aka(abs.AKAAttr{Type: abs.ATCheckcode, Value: b(20, 0xcc)})),                                               // D10
-		hdr(aka(abs.AKAAttr{Type: abs.ATCheckcode}, abs.AKAAttr{Type: abs.ATKdf, Value: abs.HB{0, 1}})),                // D10
-		hdr(aka(abs.AKAAttr{Type: abs.ATRes, Value: abs.HB{1, 2, 3, 4, 5}})),                                           // D11
-		hdr(aka(abs.AKAAttr{Type: abs.ATKdfInput, Value: b(252, 0x61)})),                                               // D12
+		hdr(sa(b(248, 0x5a), abs.Transform{Type: 1, ID: 12, HasAttr: true, TV: true, AttrType: 14, AttrVal: 128})),      // D3
+		hdr(sa(b(255, 0x5b), abs.Transform{Type: 2, ID: 5})),                                                            // D3
+		hdr(sa(nil, abs.Transform{Type: 1, ID: 12, HasAttr: true, TV: true, AttrType: 300, AttrVal: 7})),                // D4
+		hdr(sa(nil, abs.Transform{Type: 1, ID: 12, HasAttr: true, TV: true, AttrType: 142, AttrVal: 256})),              // D4
+		hdr(sa(nil, abs.Transform{Type: 3, ID: 2, HasAttr: true, AttrType: 9, AttrBytes: abs.HB{1, 2, 3}})),             // D5
+		hdr(abs.Payload{Kind: abs.PNotify, Notify: &abs.Notify{Proto: 3, Type: 16393, SPI: b(252, 1), Data: b(3, 2)}}),  // D6
+		hdr(abs.Payload{Kind: abs.PNotify, Notify: &abs.Notify{Proto: 3, Type: 1, SPI: b(255, 1)}}),                     // D6
+		hdr(aka(abs.AKAAttr{Type: abs.ATCheckcode, Value: b(20, 0xcc)})),                                                // D10
+		hdr(aka(abs.AKAAttr{Type: abs.ATCheckcode}, abs.AKAAttr{Type: abs.ATKdf, Value: abs.HB{0, 1}})),                 // D10
+		hdr(aka(abs.AKAAttr{Type: abs.ATRes, Value: abs.HB{1, 2, 3, 4, 5}})),                                            // D11
+		hdr(aka(abs.AKAAttr{Type: abs.ATKdfInput, Value: b(252, 0x61)})),                                                // D12
 		hdr(aka(abs.AKAAttr{Type: abs.ATKdfInput, Value: b(300, 0x62)}, abs.AKAAttr{Type: abs.ATMac, Value: b(16, 9)})), // D12
 	}
 }
@@ -86,17 +86,17 @@ func refusedEncodes(k *core.Case) {
 	okP := abs.Proposal{Num: 1, Proto: 1, SPI: gen.DataN(r, 4), Transforms: []abs.Transform{okT, {Type: 3, ID: 2}}}
 	okSel := gen.Selector(r)
 	bad := []abs.Payload{
-		{Kind: abs.PSA, SA: &abs.SA{Proposals: []abs.Proposal{okP, {Num: 2, Proto: 3}}}},                                                                   // second proposal without transforms
-		{Kind: abs.PSA, SA: &abs.SA{Proposals: []abs.Proposal{okP, okP, {Num: 3, Proto: 1, SPI: gen.DataN(r, 256), Transforms: []abs.Transform{okT}}}}},   // SPI too long
-		{Kind: abs.PSA, SA: &abs.SA{Proposals: []abs.Proposal{{Num: 1, Proto: 1, Transforms: []abs.Transform{okT, {Type: 2, ID: 5, HasAttr: true}}}}}},    // TLV without value
-		{Kind: abs.PTSi, TS: &abs.TS{Sel: []abs.Selector{okSel, {Type: 7, StartAddr: gen.DataN(r, 5), EndAddr: gen.DataN(r, 4)}}}},                        // bad address length
-		{Kind: abs.PTSr, TS: &abs.TS{Sel: []abs.Selector{okSel, okSel, {Type: 9}}}},                                                                        // unsupported selector type
-		{Kind: abs.PCP, CP: &abs.CP{Type: 1, Attrs: []abs.CPAttr{{Type: 1, Value: gen.DataN(r, 4)}, {Type: 2, Value: gen.DataN(r, 70000)}}}},              // attribute too long
-		{Kind: abs.PNotify, Notify: &abs.Notify{Type: 1, SPI: gen.DataN(r, 256)}},                                                                          // SPI too long
-		{Kind: abs.PDelete, Delete: &abs.Delete{Proto: 3, SPISize: 4, Num: 3, SPIs: []uint32{1, 2}}},                                                        // count mismatch
-		{Kind: abs.PEAP, EAP: &abs.EAP{Code: 1, ID: 1, Method: &abs.Method{Type: abs.MIdentity}}},                                                          // empty identity
-		{Kind: abs.PSK, SK: &abs.SK{}},                                                                                                                      // empty SK
-		{Kind: abs.PNonce, Data: gen.DataN(r, 65533)},                                                                                                      // payload beyond the 16-bit length
+		{Kind: abs.PSA, SA: &abs.SA{Proposals: []abs.Proposal{okP, {Num: 2, Proto: 3}}}},                                                                // second proposal without transforms
+		{Kind: abs.PSA, SA: &abs.SA{Proposals: []abs.Proposal{okP, okP, {Num: 3, Proto: 1, SPI: gen.DataN(r, 256), Transforms: []abs.Transform{okT}}}}}, // SPI too long
+		{Kind: abs.PSA, SA: &abs.SA{Proposals: []abs.Proposal{{Num: 1, Proto: 1, Transforms: []abs.Transform{okT, {Type: 2, ID: 5, HasAttr: true}}}}}},  // TLV without value
+		{Kind: abs.PTSi, TS: &abs.TS{Sel: []abs.Selector{okSel, {Type: 7, StartAddr: gen.DataN(r, 5), EndAddr: gen.DataN(r, 4)}}}},                      // bad address length
+		{Kind: abs.PTSr, TS: &abs.TS{Sel: []abs.Selector{okSel, okSel, {Type: 9}}}},                                                                     // unsupported selector type
+		{Kind: abs.PCP, CP: &abs.CP{Type: 1, Attrs: []abs.CPAttr{{Type: 1, Value: gen.DataN(r, 4)}, {Type: 2, Value: gen.DataN(r, 70000)}}}},            // attribute too long
+		{Kind: abs.PNotify, Notify: &abs.Notify{Type: 1, SPI: gen.DataN(r, 256)}},                                                                       // SPI too long
+		{Kind: abs.PDelete, Delete: &abs.Delete{Proto: 3, SPISize: 4, Num: 3, SPIs: []uint32{1, 2}}},                                                    // count mismatch
+		{Kind: abs.PEAP, EAP: &abs.EAP{Code: 1, ID: 1, Method: &abs.Method{Type: abs.MIdentity}}},                                                       // empty identity
+		{Kind: abs.PSK, SK: &abs.SK{}},                // empty SK
+		{Kind: abs.PNonce, Data: gen.DataN(r, 65533)}, // payload beyond the 16-bit length
 	}
 	n := 1 + r.Intn(3)
 	for i := 0; i < n; i++ {
@@ -137,7 +137,7 @@ func c03(c *core.Ctx) {
 		}
 		c03One(k, m)
 	})
-	c.Require("refused_encodes")
+	c.Require("refused_encodes", "msg_object_completed-after-plain-encode", "msg_object_header-parsed-from-a-protected-datagram", "msg_object_object-decoded-from-another-datagram", "msg_object_NewMessage")
 	c.Family("big", c.N(1200, 120000), func(k *core.Case) {
 		m := gen.Header(k.R)
 		m.Payloads = []abs.Payload{gen.Big(k.R)}
@@ -420,7 +420,7 @@ func c05(c *core.Ctx) {
 		k.Count("at_limit_encoded_ok", 1)
 		k.Distinct(fmt.Sprintf("limit|ok|%d|%d", p.Kind, total))
 	})
-	c.Require("at_limit_refused_with_error", "at_limit_encoded_ok")
+	c.Require("at_limit_refused_with_error", "at_limit_encoded_ok", "msg_object_completed-after-plain-encode", "msg_object_header-parsed-from-a-protected-datagram", "msg_object_object-decoded-from-another-datagram", "msg_object_NewMessage")
 	c.Family("fwd-after-refused-encode", c.N(6000, 600000), func(k *core.Case) {
 		refusedEncodes(k)
 		c05Forward(k, gen.Msg(k.R, gen.Opt{AllowEmpty: true, MaxPayloads: 4}))
